@@ -87,12 +87,26 @@ pub fn expect_pairing(ep: Ep, a: &Val<G1>, b: &Val<G2>) -> Result<Gt, Bad> {
 // C01
 // ---------------------------------------------------------------------------------------------
 fn reps3<G: GroupApi>(d: &N, seed: u64) -> Vec<Val<G>> {
+    // three representatives per element, plus one per structurally special scale factor of the coordinate
+    // field (G2: a purely imaginary lambda); identity lists are padded to the same length
+    let extra = G::extra_scales(seed);
     let reps: Vec<Rep<G::RF>> = if d.is_zero() {
-        vec![Rep::Id0, Rep::IdSub, Rep::IdNew(G::RF::one(), G::RF::one())]
+        let mut v = vec![Rep::Id0, Rep::IdSub, Rep::IdNew(G::RF::one(), G::RF::one())];
+        if !extra.is_empty() {
+            v.push(Rep::IdSubJ);
+        }
+        v
     } else {
-        vec![Rep::Aff, Rep::LibMul, Rep::Scaled(G::rf_generic(seed, 1))]
+        let mut v = vec![Rep::Aff, Rep::LibMul, Rep::Scaled(G::rf_generic(seed, 1))];
+        if let Some(s) = extra.first() {
+            v.push(Rep::Scaled(s.clone()));
+        }
+        v
     };
-    reps.iter().filter_map(|rp| build::<G>(d, rp)).collect()
+    // a member that cannot be built as specified falls back to the plain representative (keeps the grid rectangular)
+    reps.iter()
+        .map(|rp| build::<G>(d, rp).or_else(|| build::<G>(d, if d.is_zero() { &Rep::Id0 } else { &Rep::Aff })).expect("plain representative"))
+        .collect()
 }
 pub fn c01_bilinear(a: &Val<G1>, b: &Val<G2>, ep: Ep) -> Result<u32, Bad> {
     let e = expect_pairing(ep, a, b)?;
@@ -138,7 +152,8 @@ pub fn c01_run(run: &Run) {
     let nk = ks.len() as u64;
     let g1s: Vec<Vec<Val<G1>>> = ks.iter().map(|k| reps3::<G1>(k, run.seed)).collect();
     let g2s: Vec<Vec<Val<G2>>> = ks.iter().map(|k| reps3::<G2>(k, run.seed)).collect();
-    run.note("alphabet", json!({"scalars": nk, "representatives_per_side": 3, "entry_points": 3}));
+    let (rp1, rp2) = (g1s[0].len() as u64, g2s[0].len() as u64);
+    run.note("alphabet", json!({"scalars": nk, "representatives_G1": rp1, "representatives_G2": rp2, "entry_points": 3}));
     // (v) non-degeneracy
     let nd = Spec { name: "c01.non-degenerate", n: 3, classes: &[], required: &[] };
     run.grid(
@@ -152,7 +167,7 @@ pub fn c01_run(run: &Run) {
         },
         |i| json!({"op": "c01.nondeg", "ep": Ep::ALL[i as usize].name()}),
     );
-    let dims = [nk, nk, 3, 3, 3];
+    let dims = [nk, nk, rp1, rp2, 3];
     run.grid(
         Spec { name: "c01.bilinear", n: dims.iter().product(), classes: &["a=0 or b=0", "ab!=0"], required: &["a=0 or b=0", "ab!=0"] },
         |i| {
@@ -171,17 +186,17 @@ pub fn c01_run(run: &Run) {
     let kk: usize = run.tier.pick(7, 12);
     let sub: Vec<usize> = (0..ks.len()).take(kk).collect();
     let ns = sub.len() as u64;
-    let dims2 = [ns, ns, ns, 3, 3];
+    let dims2 = [ns, ns, ns, rp2, 3];
     run.grid(
         Spec { name: "c01.additive", n: dims2.iter().product(), classes: &["sum-is-identity"], required: &["sum-is-identity"] },
         |i| {
             let ix = unrank(i, &dims2);
             // representatives rotate with the indices so that mixed combinations occur
             let rp = ix[3];
-            let a = &g1s[sub[ix[0]]][rp];
-            let a2 = &g1s[sub[ix[1]]][(rp + ix[1]) % 3];
-            let b = &g2s[sub[ix[2]]][(rp + 1) % 3];
-            let b2 = &g2s[sub[ix[0]]][(rp + 2) % 3];
+            let a = &g1s[sub[ix[0]]][rp % rp1 as usize];
+            let a2 = &g1s[sub[ix[1]]][(rp + ix[1]) % rp1 as usize];
+            let b = &g2s[sub[ix[2]]][(rp + 1) % rp2 as usize];
+            let b2 = &g2s[sub[ix[0]]][(rp + 2) % rp2 as usize];
             let k = c01_additive(a, a2, b, b2, Ep::ALL[ix[4]])?;
             let z = addm(&a.d, &a2.d, r()).is_zero();
             Ok(Tally::new(k, true, z as u32))
@@ -189,8 +204,8 @@ pub fn c01_run(run: &Run) {
         |i| {
             let ix = unrank(i, &dims2);
             let rp = ix[3];
-            json!({"op": "c01.additive", "P": g1s[sub[ix[0]]][rp].json(), "P2": g1s[sub[ix[1]]][(rp + ix[1]) % 3].json(),
-                   "Q": g2s[sub[ix[2]]][(rp + 1) % 3].json(), "Q2": g2s[sub[ix[0]]][(rp + 2) % 3].json(), "ep": Ep::ALL[ix[4]].name()})
+            json!({"op": "c01.additive", "P": g1s[sub[ix[0]]][rp % rp1 as usize].json(), "P2": g1s[sub[ix[1]]][(rp + ix[1]) % rp1 as usize].json(),
+                   "Q": g2s[sub[ix[2]]][(rp + 1) % rp2 as usize].json(), "Q2": g2s[sub[ix[0]]][(rp + 2) % rp2 as usize].json(), "ep": Ep::ALL[ix[4]].name()})
         },
     );
     // (iv) every identity representative against every value on the other side
